@@ -17,13 +17,13 @@ EXPLANATION = (
     'snapshot of a container that in-library code mutates; R3 every callback invocation sits in a try whose '
     'catch-all handler neither re-raises nor leaves the loop; R4 removal requires equality of all five fields; '
     'R5 one receive, one all-packet fan-out and one dispatch loop per iteration, all after the None test; '
-    'R6 registration stores fields in declaration order and port-only registration uses masks (0xFF,0x00), channel 0. '
+    'R6 registration stores fields in declaration order and port-only registration uses masks (0xFF,0x00), channel 0; R8 the port and channel the predicate compares are decoded from a received header as bits 7..4 and 1..0 only (the link bits 3..2 never reach the channel; shared with C08.R4). '
     'Decides the structural necessary conditions, not scheduling.')
 ASSUMPTIONS = [
     'the dispatcher thread is the only caller of the dispatch loop',
     'user callbacks are opaque; only in-library mutators of the registration list are considered',
 ]
-FLOORS = {'R1': 2, 'R2': 2, 'R3': 1, 'R4': 5, 'R5': 3, 'R6': 4, 'R7': 2}
+FLOORS = {'R1': 2, 'R2': 2, 'R3': 1, 'R4': 5, 'R5': 3, 'R6': 4, 'R7': 2, 'R8': 3}
 
 SNAPSHOT_CALLS = ('list', 'tuple', 'sorted', 'copy.copy', 'copy')
 
@@ -240,6 +240,8 @@ def check(ctx):
             why = 'add_header_callback returns at line %d without recording a registration that differs from the existing one (only some of the five fields are compared)' % n.line
     ctx.inst('R6', add, 'every-distinct-registration-recorded', okreg, why)
     port_registration_rules(ctx, 'R6')
+    from .c08 import received_header_rules
+    received_header_rules(ctx, 'R8')      # pk.port / pk.channel of a received packet are header bits 7..4 / 1..0 (shared with C08.R4)
 
 
 def removal_predicate_rules(ctx, rule='R4'):
